@@ -185,8 +185,17 @@ def c05_c(ctx):
     gs = ctx.guards(ab, s)
     own = any(pol is False and match(t, pattern('_n not in self.stores')) is not None
               for (t, pol, _) in gs)
-    fresh = any(pol is False and match(t, pattern('batch_index in _s')) is not None
+    fresh = any(pol is False and match(t, pattern('batch_index in _s')) is not None and
+                match(t, pattern('batch_index in _s'))['s'] == tt[1]
                 for (t, pol, _) in gs)
+    other = [t for (t, pol, _) in gs if pol is False and
+             match(t, pattern('batch_index in _s')) is not None and
+             match(t, pattern('batch_index in _s'))['s'] != tt[1]]
+    ctx.check(not other, ab, 'skip decided per store', 'batch_index in <the store written>',
+              'whether a node\'s values are stored is decided by membership in {} instead of in '
+              'the node\'s own store: a store that lacks the batch is not filled when another '
+              'one holds it'.format(show(match(other[0], pattern('batch_index in _s'))['s'])
+                                    if other else ''), fn=ab, node=s)
     ctx.check(own, ab, 'only pool nodes', 'skips nodes without a store',
               'outputs of nodes the pool does not store are stored too', fn=ab, node=s)
     ctx.check(fresh, ab, 'no overwrite', 'skips an index the store already holds',
